@@ -7,6 +7,9 @@ Correspondence (implementation vs extracted Coq model) and search for failing in
   * the two token decoders xls::parse_formula / xlsb::parse_formula (cmd `ptg`): random ASTs
     encoded by the extracted Coq encoders (cmd `ptg_ast`, model side only), raw and mutated rgce
     byte strings (the model must predict err / panic / text exactly);
+  * shared and array formulas of xls (round 7): PtgRefN / PtgAreaN relative to a base cell (format
+    `xls@R:C` of cmds `ptg` / `ptg_ast`), generated .xls sheets with shared / array groups through
+    Xls::worksheet_formula against the extracted FormulaSheet model (cmd `fsheet`) and the Coq spec;
   * the decoders' environment and the end-to-end statement (round 3): generated .xlsb / .xls /
     .xlsx / .ods files (tools/fmlagen.py) through Reader::worksheet_formula of every sheet and
     Reader::defined_names; expected = the generator's semantic description expanded independently
@@ -27,7 +30,9 @@ ASSUMPTIONS = [
     "PtgAttrSpace / PtgAttrSpaceSemi (white space typed into the formula) are display-neutral in the spec: the A1 text of the property's grammar has no white space; both decoders skip them",
     "PtgFuncVar with tab 0x00FF: in domain when the first parameter is a PtgName (EName); with any other first operand the decoders print that operand's text in the name position (compared implementation vs model only)",
     "external-workbook references (iSupBook not the internal SupBook) and multi-sheet 3-D spans (itabFirst <> itabLast) are outside the property's grammar; calamine ignores iSupBook/itabLast",
-    "defined names: every Lbl / BrtName / definedName / named-range record of the file is a defined name (the code filters nothing; hidden and built-in names keep their slot); an xls built-in name is its one-character code, as stored",
+    "defined names: every Lbl / BrtName / definedName / named-range record of the file is a defined name (the code filters nothing; hidden and built-in names keep their slot); an xls built-in name (fBuiltin + a one-character id of MS-XLS 2.5.114) is _xlnm.<Name>, the string the xlsx / xlsb twins store; an id outside the table or a longer string with fBuiltin is reported as stored",
+    "xls shared formulas: a relative component of PtgRefN / PtgAreaN is an offset from the cell using the formula; rows wrap modulo 65536, columns modulo 256 (the low 8 bits of the column field are the offset); an area whose corners end up inverted after wrapping is printed as translated (Excel would normalise it); array formulas are reported as the plain text of the ARRAY record on every cell of the range (no braces); a PtgExp cell whose group has no SHRFMLA / ARRAY record has no text",
+    "xlsb shared / array formulas are a registered known class (K_PTGEXP): the xlsb reader does not look at BrtShrFmla / BrtArrFmla",
     "stored-text formats: the text of <f> (character data, entities and CDATA resolved) / of the table:formula attribute (entities resolved, of:= / = prefix kept) is the formula text; a repeated ods cell or row repeats its formula verbatim; cells whose text is empty are not formula cells",
     "FormulaEnv models the name / extern-sheet loops from the framed records on (framing: C02 / C03); the XML event level of xlsx / ods has no Coq model (the file tier compares the real readers with the generator's expansion and with the extracted Range::from_sparse)",
 ]
@@ -190,6 +195,30 @@ class Gen:
                 self.fixed.setdefault(a, []).append(i)
         self.nftab = len(ftab_argc)
         self.rowlim = 65536 if fmt == "xls" else 2**32
+        self.base = None          # (row, col) of the cell using a shared formula: PtgRefN / PtgAreaN allowed
+
+    def fmt_arg(self):
+        """the format field of a ptg / ptg_ast line: xls@R:C = decode relative to the base cell (R, C)"""
+        return self.fmt if self.base is None else "%s@%d:%d" % (self.fmt, self.base[0], self.base[1])
+
+    def cref_n(self):
+        """a corner of PtgRefN / PtgAreaN as stored: a relative component is a two's-complement offset
+        (rows 16 bits; columns: 8 bits as Excel writes them, sometimes the 14-bit form), an absolute one
+        the row / column itself"""
+        rng = self.rng
+        rr, cr = rng.randrange(2), rng.randrange(2)
+        if rr:
+            d = rng.choice([0, 0, 1, -1, 2, -2, 7, -7, 100, -100, 32767, -32768, rng.randrange(-65535, 65536)])
+            r = d % 65536
+        else:
+            r = rng.choice([0, 1, 9, 65535, rng.randrange(0, 65536)])
+        if cr:
+            d = rng.choice([0, 0, 1, -1, 2, -2, 5, -5, 127, -128, 255, -255, rng.randrange(-255, 256)])
+            c = d % 256 if rng.random() < 0.8 else d % 16384
+        else:
+            c = rng.choice([0, 1, 25, 26, 255, rng.randrange(0, 256)])
+        self.ctx.count("%s:refn:row_%s,col_%s" % (self.fmt, "rel" if rr else "abs", "rel" if cr else "abs"))
+        return "%d %d %d %d" % (r, c, rr, cr)
 
     def env(self):
         rng = self.rng
@@ -282,6 +311,8 @@ class Gen:
         leaf = depth <= 0 or rng.random() < 0.25
         if leaf:
             k = rng.choice(["ref", "ref", "area", "ref3", "area3", "name", "int", "num", "str", "bool", "err", "miss"])
+            if self.fmt == "xls" and (self.base is not None and rng.random() < 0.45 or rng.random() < 0.01):
+                k = rng.choice(["refn", "refn", "arean"])       # without a base: not wf (the decoder refuses them)
         else:
             k = rng.choice(["un", "bin", "bin", "par", "func", "fvar", "fvar", "sum", "attr", "attr", "choose", "user"])
         c.count("%s:ctor:%s" % (self.fmt, k))
@@ -290,6 +321,10 @@ class Gen:
             return "ref %s %s" % (cls(), self.cref())
         if k == "area":
             return "area %s %s %s" % (cls(), self.cref(), self.cref())
+        if k == "refn":
+            return "refn %s %s" % (cls(), self.cref_n())
+        if k == "arean":
+            return "arean %s %s %s" % (cls(), self.cref_n(), self.cref_n())
         if k == "ref3":
             return "ref3 %s %d %s" % (cls(), self.ixti(), self.cref())
         if k == "area3":
@@ -406,20 +441,28 @@ def classify_ast(ctx, fmt, lid, ast_line, impl_line, ans, impl):
 def run_ast_batch(ctx, fmt, n, tag, ftab_argc, depth=6):
     g = Gen(ctx, fmt, ftab_argc)
     ast_lines, envs = [], []
+    fmts = []
     for k in range(n):
         g.env()
+        # a fifth of the xls cases are shared formulas: decoded relative to a base cell
+        g.base = None
+        if fmt == "xls" and ctx.rng.random() < 0.2:
+            g.base = (ctx.rng.choice([0, 1, 9, 65535, ctx.rng.randrange(65536)]), ctx.rng.choice([0, 1, 25, 255, ctx.rng.randrange(256)]))
+            ctx.count("xls:with_base_cell")
         d = ctx.rng.choice([0, 1, 2, 3, 4, 5, depth]) if k % 4 else depth
         ast = g.expr(d)
         ea = g.env_args()
-        ast_lines.append("%s%d\tptg_ast\t%s\t%s\t%s" % (tag, k, fmt, "\t".join(ea), ast))
+        fmts.append(g.fmt_arg())
+        ast_lines.append("%s%d\tptg_ast\t%s\t%s\t%s" % (tag, k, fmts[-1], "\t".join(ea), ast))
         envs.append(ea)
+    g.base = None
     model = ctx.run_model(ast_lines)
     impl_lines = []
     for k, l in enumerate(ast_lines):
         lid = "%s%d" % (tag, k)
         a = model.get(lid, "")
         hexb = a.split("|", 1)[0] if "|" in a else ""
-        impl_lines.append("%s\tptg\t%s\t%s\t%s" % (lid, fmt, "\t".join(envs[k]), hexb))
+        impl_lines.append("%s\tptg\t%s\t%s\t%s" % (lid, fmts[k], "\t".join(envs[k]), hexb))
     impl = ctx.run_impl(impl_lines)
     for k, l in enumerate(ast_lines):
         lid = "%s%d" % (tag, k)
@@ -432,7 +475,7 @@ def run_ast_batch(ctx, fmt, n, tag, ftab_argc, depth=6):
 # ------------------------------------------------------------------------------- raw / malformed rgce
 PTGS = [0x01, 0x03, 0x05, 0x08, 0x0F, 0x10, 0x11, 0x12, 0x13, 0x14, 0x15, 0x16, 0x17, 0x18, 0x19, 0x1C, 0x1D, 0x1E,
         0x1F, 0x20, 0x40, 0x21, 0x41, 0x22, 0x42, 0x62, 0x23, 0x43, 0x24, 0x44, 0x64, 0x25, 0x45, 0x26, 0x29, 0x49,
-        0x2A, 0x2B, 0x2C, 0x2D, 0x39, 0x59, 0x79, 0x3A, 0x5A, 0x3B, 0x7B, 0x3C, 0x3D, 0x02, 0x00, 0xFF]
+        0x2A, 0x2B, 0x2C, 0x2C, 0x4C, 0x6C, 0x2D, 0x4D, 0x39, 0x59, 0x79, 0x3A, 0x5A, 0x3B, 0x7B, 0x3C, 0x3D, 0x02, 0x00, 0xFF]
 
 
 def rand_token(rng, fmt):
@@ -494,8 +537,10 @@ def rand_token(rng, fmt):
         inner = b"".join(rand_token(rng, fmt) for _ in range(rng.randrange(0, 3)))
         ln = len(inner) if rng.random() < 0.8 else rng.choice([0, len(inner) + 1, 65535])
         body = struct.pack("<H", ln) + inner
-    elif p in (0x2A,):
+    elif p in (0x2A, 0x2C, 0x4C, 0x6C):
         body = by(rb + 2)
+    elif p in (0x2D, 0x4D):
+        body = by(2 * rb + 4)
     elif p in (0x2B,):
         body = by(2 * rb + 4)
     elif p in (0x39, 0x59, 0x79):
@@ -547,7 +592,10 @@ def run_raw(ctx, fmt, n, tag, seeds):
                 kind = "flip"
             data = bytes(data)
         ctx.count("%s:raw:%s" % (fmt, kind))
-        lines.append("%s%d\tptg\t%s\t%s\t%s" % (tag, k, fmt, "\t".join(raw_env(rng, fmt)), data.hex()))
+        f_ = fmt
+        if fmt == "xls" and rng.random() < 0.3:       # a base cell: PtgRefN / PtgAreaN are decoded
+            f_ = "xls@%d:%d" % (rng.choice([0, 1, 65535, rng.randrange(65536)]), rng.choice([0, 1, 255, rng.randrange(256)]))
+        lines.append("%s%d\tptg\t%s\t%s\t%s" % (tag, k, f_, "\t".join(raw_env(rng, fmt)), data.hex()))
     impl, model = ctx.run_both(lines)
     for l in lines:
         lid = l.split("\t", 1)[0]
@@ -602,6 +650,15 @@ def corpus(ctx):
         ("xls", xenv, "attr 64 256 bin 3 int 1 attr 64 512 int 2"),
         ("xlsb", benv, "attr 65 1 bin 3 int 1 post 64 513 int 2"),
         ("xls", xenv, "par attr 64 1026 post 64 1028 int 5"),
+        # shared formulas (former K_PTGEXP): PtgRefN / PtgAreaN seen from the base cell xls@row:col
+        ("xls@1:1", xenv, "bin 3 bin 5 refn v 0 255 1 1 int 2 ref v 0 2 0 0"),     # B2: A2*2+$C$1
+        ("xls@3:1", xenv, "bin 3 bin 5 refn v 0 255 1 1 int 2 ref v 0 2 0 0"),     # B4: A4*2+$C$1
+        ("xls@0:3", xenv, "sum arean r 65535 0 1 1 1 1 0 1"),                      # D1: SUM(D65536:E$2), row -1 wraps
+        ("xls@65535:255", xenv, "refn r 1 1 1 1"),                                 # IV65536: +1 / +1 wraps to A1
+        ("xls@5:5", xenv, "refn r 3 2 0 0"),                                       # absolute: $C$4 from anywhere
+        ("xls@5:5", xenv, "refn r 65533 16382 1 1"),                               # 14-bit column offset -2: D3
+        ("xls@5:5", xenv, "refn a 7 2 0 1"),                                       # mixed: H$8
+        ("xls", xenv, "refn r 0 0 1 1"),                                           # no base cell: refused (not wf)
     ] + [
         # audit G1: CHOOSE with 1, 2, 3, 4, 10 values (jump table + goto after each value)
         (fmt, env, "fvar v 100 %d int 2 post 8 %d chs %d %s int 10%s" % (
@@ -1009,10 +1066,10 @@ def run_xlsb_files(ctx, n, argc):
 
 
 def run_xls_files2(ctx, n, argc):
-    """.xls: Lbl records of every kind (hidden, built-in, 8/16-bit names) in front of the names the
-    formulas use, 3-D references through a shuffled XTI table (possibly split over two EXTERNSHEET
-    records), shared-formula members (PtgExp: known class), defined_names whose formulas range over
-    the whole grammar (former known class K_XLS_NAME_FORMULA, repaired on branch c14-fixes)."""
+    """.xls: Lbl records of every kind (hidden, built-in = one-character ids reported as _xlnm.<Name>,
+    8/16-bit names) in front of the names the formulas use, 3-D references through a shuffled XTI table
+    (possibly split over two EXTERNSHEET records), one-cell shared groups / orphan PtgExp cells (groups
+    proper: run_xls_shared_files), defined_names whose formulas range over the whole grammar."""
     from props import c14_xlsfile as xf
     rng = ctx.rng
     g = Gen(ctx, "xls", argc)
@@ -1036,12 +1093,16 @@ def run_xls_files2(ctx, n, argc):
                 fl |= fg.LF_HIDDEN
             if rng.random() < 0.25:
                 fl |= fg.LF_BUILTIN
-                name, wide16 = chr(rng.choice([0x00, 0x01, 0x06, 0x07, 0x0D])), rng.random() < 0.15
+                # the stored string of a built-in name is its one-character id (MS-XLS 2.5.114); now and then
+                # an id outside the table or a longer string (reported as stored)
+                name, wide16 = chr(rng.choice([0x00, 0x01, 0x06, 0x07, 0x0C, 0x0D, 0x0D, 0x0E, 0x41, rng.randrange(0x0E)])), rng.random() < 0.15
+                if rng.random() < 0.05:
+                    name = rng.choice(["\x06x", "Print_Area"])
             else:
                 name = rng.choice(NAME_POOL)
                 wide16 = any(ord(ch) > 255 for ch in name) or rng.random() < 0.3
             ctx.count("xls:file:name:%s%s%s" % ("builtin" if fl & 32 else "plain", "+hidden" if fl & 1 else "", "+16bit" if wide16 else ""))
-            nm.append({"flags": fl, "name": name, "wide": wide16, "itab": rng.choice([0, 0, 1])})
+            nm.append({"flags": fl, "name": fg.lbl_logical(fl, name), "stored": name, "wide": wide16, "itab": rng.choice([0, 0, 1])})
         g.names = [x["name"] for x in nm]
         # the Lbl formulas (decoded after the globals loop against ALL names: a name may be defined
         # through one stored after it): single 3-D references, any AST of the grammar, expressions
@@ -1114,7 +1175,7 @@ def run_xls_files2(ctx, n, argc):
                 rgce, text = bytes.fromhex(parts[0])[2:], None     # ill-formed AST: implementation vs model only
             else:
                 rgce, text = b"\x1e\x07\x00", "7"
-            lbls.append(fg.lbl_payload(x["flags"], x["itab"], x["name"], x["wide"], rgce))
+            lbls.append(fg.lbl_payload(x["flags"], x["itab"], x["stored"], x["wide"], rgce))
             exp_names.append((x["name"], text))
         fbs, exp_sheets, has_exp, cms = [], [], False, []
         for slots in sheets:
@@ -1127,9 +1188,12 @@ def run_xls_files2(ctx, n, argc):
                     cpf = struct.pack("<H", 5) + b"\x01" + struct.pack("<HH", r, c)
                     tail = xf.rec(0x04BC, fg.shrfmla_record_payload(r, r, c, c, b"\x1e\x07\x00")) if first_exp else b""
                     fl.append((r, c, cpf, tail))
-                    cp.append((r, c, "7"))
-                    cm.append((r, c, ""))
-                    has_exp = True
+                    # the first such cell starts a one-cell shared group (SHRFMLA = 7); the others name
+                    # themselves without a SHRFMLA record: nothing to report (shared groups proper:
+                    # run_xls_shared_files)
+                    cp.append((r, c, "7" if first_exp else ""))
+                    cm.append((r, c, "7" if first_exp else ""))
+                    first_exp = False
                 else:
                     hexb, text = _pick_ast(model, slot[2], "03001e0700", "7")
                     fl.append((r, c, bytes.fromhex(hexb)))
@@ -1196,6 +1260,207 @@ def run_xls_files2(ctx, n, argc):
                                           "impl": e[1], "model": m})
         _check_book(ctx, "xls", line, impl.get(lid), ",".join(want), es, KNOWN_PTGEXP if has_exp else None, model_names=mnames)
     ctx.extra["generated_xls_files"] = len(books)
+    return meta, impl
+
+
+# ---- xls shared and array formulas (former known class K_PTGEXP, xls half)
+def _simple_shared(rng):
+    """a small shared expression with an INDEPENDENT reading of its text: (AST, f: member cell -> text).
+    corners are (row_rel, signed offset or row, col_rel, signed offset or column)"""
+    def corner():
+        rr, cr = rng.randrange(2), rng.randrange(2)
+        r = rng.choice([0, 1, -1, 2, -3, 40, -40, 65535, -65535, rng.randrange(-300, 300)]) if rr else rng.choice([0, 1, 9, 65535, rng.randrange(65536)])
+        c = rng.choice([0, 1, -1, 2, -2, 12, -12, 255, -255, rng.randrange(-20, 20)]) if cr else rng.choice([0, 1, 25, 26, 255, rng.randrange(256)])
+        return (rr, r, cr, c)
+    def stored(k):
+        rr, r, cr, c = k
+        cc = (c % 256 if rng.random() < 0.85 else c % 16384) if cr else c
+        return "%d %d %d %d" % (r % 65536 if rr else r, cc, rr, cr)
+    a, b = corner(), corner()
+    cls = rng.choice("rva")
+    kind = rng.randrange(4)
+    if kind == 0:
+        return "refn %s %s" % (cls, stored(a)), lambda p: fg.shared_ref_text(p, a)
+    if kind == 1:
+        return ("bin 5 refn %s %s int 2" % (cls, stored(a)), lambda p: fg.shared_ref_text(p, a) + "*2")
+    if kind == 2:
+        return ("sum arean %s %s %s" % (cls, stored(a), stored(b)),
+                lambda p: "SUM(%s:%s)" % (fg.shared_ref_text(p, a), fg.shared_ref_text(p, b)))
+    return ("bin 3 refn %s %s refn %s %s" % (cls, stored(a), cls, stored(b)),
+            lambda p: fg.shared_ref_text(p, a) + "+" + fg.shared_ref_text(p, b))
+
+
+def run_xls_shared_files(ctx, n, argc):
+    """.xls sheets with shared groups (column, row, block; first cell = top-left; relative, absolute and
+    mixed PtgRefN / PtgAreaN, offsets that wrap around the sheet) and array groups, between plain formula
+    cells: every cell of a group must report the group's expression seen from its own position
+    (C14_shared_formula_members_xls / _array_).  Expected = the Coq spec (ptg_ast with the base cell), for
+    the simple expressions cross-checked against an independent Python reading; model = FormulaSheet
+    (cmd fsheet) on the records of the sheet."""
+    from props import c14_xlsfile as xf
+    rng = ctx.rng
+    g = Gen(ctx, "xls", argc)
+    g.quote_sheets = True
+    books, ast_lines = [], []
+    for k in range(n):
+        g.env()
+        g.names = [x for x in g.names if all(ord(ch) < 256 for ch in x)]
+        g.base = None
+        ea = g.env_args()
+        sheets = []
+        for si in range(len(g.sheets)):
+            br, bc = _window(rng, 65536, 256, 40, 12)
+            used, items = set(), []
+            for gi in range(rng.choice([0, 1, 1, 2, 3])):
+                array = rng.random() < 0.25
+                shape = rng.choice(["col", "row", "block"])
+                h = rng.randrange(2, 7) if shape != "row" else 1
+                w = rng.randrange(2, 6) if shape != "col" else 1
+                r0, c0 = br + rng.randrange(0, 40 - h), bc + rng.randrange(0, 12 - w)
+                cells = [(r, c) for r in range(r0, r0 + h) for c in range(c0, c0 + w)]
+                if any(q in used for q in cells):
+                    continue
+                if not array and rng.random() < 0.3:
+                    cells = [cells[0]] + [q for q in cells[1:] if rng.random() < 0.7]      # not every cell uses the group
+                used.update(cells)
+                first = cells[0]
+                cands = []
+                for j in range(2):
+                    simple = None
+                    if array:
+                        ast = g.expr(rng.choice([0, 1, 2]))
+                    elif rng.random() < 0.5:
+                        ast, simple = _simple_shared(rng)
+                    else:
+                        g.base = first
+                        ast = g.expr(rng.choice([0, 1, 2, 3]))
+                        g.base = None
+                    lids = []
+                    for (r, c) in cells:
+                        lid = "xs%d_%d_%d_%d_%d_%d" % (k, si, gi, j, r, c)
+                        fmt = "xls" if array else "xls@%d:%d" % (r, c)
+                        ast_lines.append("%s\tptg_ast\t%s\t%s\t%s" % (lid, fmt, "\t".join(ea), ast))
+                        lids.append(lid)
+                    cands.append((ast, lids, simple))
+                ctx.count("xls:file:group:%s:%s" % ("array" if array else "shared", shape))
+                items.append({"kind": "array" if array else "shared", "cells": cells, "box": (r0, r0 + h - 1, c0, c0 + w - 1),
+                              "cands": cands})
+            for _ in range(rng.choice([0, 1, 2, 4])):
+                q = (br + rng.randrange(0, 40), bc + rng.randrange(0, 12))
+                if q in used:
+                    continue
+                used.add(q)
+                if rng.random() < 0.12:
+                    # a PtgExp naming a cell that starts no group: nothing to report
+                    t = (br + rng.randrange(0, 40), bc + rng.randrange(0, 12))
+                    if not any(t == it["cells"][0] for it in items if "cells" in it):
+                        items.append({"kind": "orphan", "pos": q, "target": t})
+                        ctx.count("xls:file:group:orphan_ptgexp")
+                    continue
+                lid = "xsp%d_%d_%d_%d" % (k, si, q[0], q[1])
+                ast_lines.append("%s\tptg_ast\txls\t%s\t%s" % (lid, "\t".join(ea), g.expr(rng.choice([0, 1, 2]))))
+                items.append({"kind": "plain", "pos": q, "lid": lid})
+            sheets.append(items)
+        books.append((list(g.sheets), list(g.names), list(g.xtis), sheets, ea))
+    model = ctx.run_model(ast_lines)
+    def good(lid):
+        parts = model.get(lid, "").split("|")
+        ok = len(parts) == 5 and parts[4] == "1" and parts[3] == "-" and len(parts[0]) // 2 <= 4000 and parts[1] == "ok:" + parts[2]
+        return parts if ok else None
+    impl_lines, model_lines, meta = [], [], {}
+    for k, (snames, names, xtis, sheets, ea) in enumerate(books):
+        fbs, per_sheet = [], []
+        for si, items in enumerate(sheets):
+            cellrecs = {}       # position -> (cpf, records after the FORMULA record)
+            exp = []
+            for it in items:
+                if it["kind"] == "plain":
+                    parts = good(it["lid"])
+                    cpf, text = (bytes.fromhex(parts[0]), bytes.fromhex(parts[2]).decode("utf-8")) if parts else (bytes.fromhex("03001e0700"), "7")
+                    cellrecs[it["pos"]] = (cpf, b"")
+                    exp.append((it["pos"][0], it["pos"][1], text))
+                elif it["kind"] == "orphan":
+                    cellrecs[it["pos"]] = (fg.ptgexp_cpf(*it["target"]), b"")
+                    exp.append((it["pos"][0], it["pos"][1], ""))
+                else:
+                    chosen = None
+                    for (ast, lids, simple) in it["cands"]:
+                        ps = [good(l) for l in lids]
+                        if all(ps):
+                            chosen = (ps, simple, ast)
+                            break
+                    first = it["cells"][0]
+                    if chosen is None:
+                        rgce, texts = b"\x1e\x07\x00", ["7"] * len(it["cells"])
+                    else:
+                        ps, simple, ast = chosen
+                        rgce = bytes.fromhex(ps[0][0])[2:]
+                        texts = [bytes.fromhex(p_[2]).decode("utf-8") for p_ in ps]
+                        if any(bytes.fromhex(p_[0])[2:] != rgce for p_ in ps):
+                            ctx.disagreements.append({"function": "encode_xls depends on the base cell", "case": ast, "impl": None, "model": None})
+                        if simple is not None:
+                            for q, t in zip(it["cells"], texts):
+                                if simple(q) != t:
+                                    ctx.disagreements.append({"function": "Ptg.translate / render (Coq spec) vs the independent Python reading of PtgRefN",
+                                                              "case": "cell %r uses %s" % (q, ast), "impl": simple(q), "model": t})
+                            ctx.count("xls:file:group:independent_reading")
+                    r0, r1, c0, c1 = it["box"]
+                    if rng.random() < 0.15:
+                        # the ref of the record is a bounding box: the first cell need not be its top-left corner
+                        r0, c0 = max(0, r0 - rng.randrange(2)), max(0, c0 - rng.randrange(2))
+                    if it["kind"] == "shared":
+                        tail = xf.rec(0x04BC, fg.shrfmla_record_payload(r0, r1, c0, c1, rgce))
+                    else:
+                        tail = xf.rec(0x0221, fg.array_record_payload(r0, r1, c0, c1, rgce, rng.choice([0, 1])))
+                    for i, (q, t) in enumerate(zip(it["cells"], texts)):
+                        cellrecs[q] = (fg.ptgexp_cpf(*first), tail if i == 0 else b"")
+                        exp.append((q[0], q[1], t))
+                    ctx.count("xls:file:group_cells", len(it["cells"]))
+            entries = []
+            for q in sorted(cellrecs):
+                cpf, tail = cellrecs[q]
+                rr = [(0x0006, fg.xls_formula_payload(q[0], q[1], cpf))]
+                if tail:
+                    rr.append((struct.unpack("<H", tail[:2])[0], tail[4:]))
+                entries.append(((q[0], q[1], cpf, tail), rr))
+            if entries and rng.random() < 0.4:
+                # a NUMBER record between the cells: ignored by the formula side
+                numrec = struct.pack("<HHHd", entries[0][0][0], 255, 0, 1.5)
+                entries.insert(rng.randrange(1, len(entries) + 1),
+                               ((entries[0][0][0], 255, None, xf.rec(0x0203, numrec)), [(0x0203, numrec)]))
+            fl = [e_[0] for e_ in entries]
+            recs = [r_ for e_ in entries for r_ in e_[1]]
+            fbs.append(fl)
+            recs.append((0x000A, b""))
+            per_sheet.append((fg.expected_range(exp, keep_empty=True), recs))
+        data = xf.cfb_write([("Workbook", xf.workbook_stream(snames, names, xtis, fbs))])
+        path = _write("s%d.xls" % k, data)
+        line = "xs%d\topen\txls\t%s\t%s" % (k, path, ";".join("formula " + hx(s_) for s_ in snames))
+        impl_lines.append(line)
+        for si, (want, recs) in enumerate(per_sheet):
+            model_lines.append("xs%d_m%d\tfsheet\txls\t%s\t%s" % (k, si, "\t".join(ea), _recs_arg(recs)))
+        meta["xs%d" % k] = (line, [w for w, _ in per_sheet])
+    impl = ctx.run_impl(impl_lines)
+    mod2 = ctx.run_model(model_lines)
+    for lid, (line, wants) in meta.items():
+        preds = [mod2.get("%s_m%d" % (lid, si), "(missing)") for si in range(len(wants))]
+        parts = (impl.get(lid) or "").split(";;")
+        ctx.traces += 1
+        if len(parts) != len(wants):
+            ctx.violations.append({"case": line, "expected": ";;".join(wants), "actual": impl.get(lid), "model": ";;".join(preds),
+                                   "what": "xls file with shared / array formulas through the public API: the workbook could not be read"})
+            continue
+        for si, (got, w, m) in enumerate(zip(parts, wants, preds)):
+            if got != m:
+                ctx.disagreements.append({"function": "xls worksheet_formula (real file vs FormulaSheet model)", "case": line, "impl": got, "model": m})
+            if got != w:
+                ctx.violations.append({"case": line, "expected": ";;".join(wants), "actual": impl.get(lid), "model": ";;".join(preds),
+                                       "what": "xls file through the public API, sheet #%d: every cell of a shared formula must report the shared "
+                                               "expression translated to its own position, every cell of an array formula the array's expression" % si})
+                break
+            if w != "R[-]":
+                ctx.nontrivial("xls:shared:%s" % w)
+    ctx.extra["generated_xls_shared_files"] = len(books)
     return meta, impl
 
 
@@ -1541,10 +1806,11 @@ def run(ctx):
 def run_e2e(ctx, argc, factor=1):
     import shutil
     for f in os.listdir(E2E_DIR) if os.path.isdir(E2E_DIR) else []:
-        if f.startswith("e"):
+        if f.startswith(("e", "s")):
             os.remove(os.path.join(E2E_DIR, f))
     mb, ib = run_xlsb_files(ctx, factor * ctx.scale(150, 2000), argc)
     ml, il = run_xls_files2(ctx, factor * ctx.scale(120, 1500), argc)
+    run_xls_shared_files(ctx, factor * ctx.scale(120, 1500), argc)
     mx, ix = run_xlsx_files(ctx, factor * ctx.scale(150, 2000))
     mo, io_ = run_ods_files(ctx, factor * ctx.scale(150, 2000))
     return (mb, ib), (ml, il), (mx, ix), (mo, io_)
